@@ -60,6 +60,9 @@ func TestC05_Shield(t *testing.T) {
 				750 * time.Millisecond, 1250 * time.Millisecond, 3333 * time.Millisecond, 1500 * time.Microsecond, 10*time.Millisecond + 300*time.Microsecond}).Draw(t, "oddFallbackDur")
 		}
 		R := genDur(t, "recovery", 2, 9)
+		if rapid.IntRange(0, 7).Draw(t, "noRecoveryRamp") == 0 {
+			R = 0 // "no ramp": the breaker still passes through recovering on its way back to standby
+		}
 		P := genDur(t, "checkPeriod", 0, 6)
 		expr := rapid.SampledFrom([]string{
 			"NetworkErrorRatio() > 0.5",
